@@ -188,6 +188,11 @@ pub fn run(seed: u64, tier: &str, w: &mut dyn Write) -> usize {
         }
         built.push((p, b));
     }
+    // Keccak configuration
+    for (k, ci) in [3usize, 0].iter().enumerate() {
+        n += crate::kcfg::c03_keccak(&mut r, tier, w, &cfgs[*ci].1, k);
+        if tier != "thorough" { break; }
+    }
     // other circuits: same program with one constant changed (same shape, different constants /
     // digest), and entirely different programs
     for (bi, (p, b)) in built.iter().enumerate() {
